@@ -176,9 +176,16 @@ func TestVerifBoundedDiff(t *testing.T) {
 	for _, a := range texts {
 		for _, b := range texts {
 			cases++
-			d := Diff("a", []byte(a), "b", []byte(b))
+			d, pmsg := verifDiffNoPanic(a, b)
 			if a != b {
 				nontrivial++
+			}
+			if pmsg != "" {
+				fails++
+				if first == "" {
+					first = fmt.Sprintf("Diff(%q, %q): %s", a, b, pmsg)
+				}
+				continue
 			}
 			if msg := verifCheckDiff(a, b, d); msg != "" {
 				fails++
@@ -291,7 +298,14 @@ func TestVerifBoundedDiffGaps(t *testing.T) {
 							if as != bs {
 								nontrivial++
 							}
-							d := Diff("a", []byte(as), "b", []byte(bs))
+							d, pmsg := verifDiffNoPanic(as, bs)
+							if pmsg != "" {
+								fails++
+								if first == "" {
+									first = fmt.Sprintf("Diff(%q, %q): %s", as, bs, pmsg)
+								}
+								continue
+							}
 							if msg := verifCheckDiff(as, bs, d); msg != "" {
 								fails++
 								if first == "" {
@@ -305,4 +319,14 @@ func TestVerifBoundedDiffGaps(t *testing.T) {
 		}
 	}
 	fmt.Printf("VERIF-BOUNDED: name=DiffGaps bound=%d cases=%d nontrivial=%d failures=%d first=%q\n", maxGap, cases, nontrivial, fails, first)
+}
+
+// verifDiffNoPanic runs Diff and turns a run-time panic into a reported failure.
+func verifDiffNoPanic(a, b string) (d []byte, msg string) {
+	defer func() {
+		if r := recover(); r != nil {
+			msg = fmt.Sprintf("PANIC: %v", r)
+		}
+	}()
+	return Diff("a", []byte(a), "b", []byte(b)), ""
 }
